@@ -159,7 +159,10 @@ def oracle(ctx, kind, p):
         tgt = rng.choice(['b', '7', '"s"'])
         rel = [('r', sr, 'a'), ('r', ':instance', concept), ('r', tr, tgt)]
         rng.shuffle(rel)
-        k = rng.choice(['plain', 'extra', 'top', 'referenced', 'wrongroles', 'one'])
+        k = rng.choice(['plain', 'extra', 'top', 'referenced', 'wrongroles', 'one', 'selfref'])
+        if k == 'selfref':
+            # one of its two arguments is the node itself: it is referenced, hence protected
+            rel = [x if x[1] != tr else ('r', tr, 'r') for x in rel]
         if k == 'extra':
             # a third relation - possibly repeating one of the two argument roles
             rel.append(('r', rng.choice([':polarity', ':ARG3', ':time', tr, sr]), rng.choice(['-', 'a', '8'])))
